@@ -20,6 +20,7 @@ import random
 import shutil
 import sys
 import threading
+import time
 
 from harness import core, forkpool, graph, replay, tlc
 from harness import live_c18, sim_c18
@@ -60,6 +61,10 @@ DUMPS = [
     ("rlimit-cap", lambda: consts(["rlimit"], SysRes="@{TRUE, FALSE}", Resources={1, 2}, Capped="@{2}")),
 ]
 ELIG6 = ELIG4[:-1] + ", {0, 2}, {1, 2, 3}}"
+# thorough tier only: both processes range over every CPU list, six cpusets
+DUMPS_THOROUGH = [
+    ("affinity-wide", lambda: consts(["affinity"], Wide={1, 2}, EligSets=ELIG6, DeniedSets="@{{}, {2}}")),
+]
 
 
 def exhaustive(thorough):
@@ -756,6 +761,12 @@ class Stats:
         self.tags = {"sim": {}, "live": {}}
         self.steps = {"sim": 0, "live": 0}
         self.skipped = {}
+        self.deferred = []       # disagreements found by a background thread, reported by the main one
+        self.sigs = {}
+
+    def seen(self, sig, target):
+        d = self.sigs.setdefault(sig, {})
+        d[target] = d.get(target, 0) + 1
 
     def add(self, target, res):
         for k, v in res.get("tags", {}).items():
@@ -771,6 +782,7 @@ def record(ctx, stats, name, target, jobs, results, kind):
         stats.add(target, res)
         steps += res.get("steps", 0)
         for mm in res.get("mismatches", ()):
+            stats.seen("conf:" + mm["sig"], target)
             evs = [_strip(e) for e in events[:mm["step"] + 1]]
             ctx.disagree("conf:" + mm["sig"],
                          "code and specification disagree at step %d of a %s behaviour: %s"
@@ -778,8 +790,9 @@ def record(ctx, stats, name, target, jobs, results, kind):
                          {"target": target, "meta": meta, "events": evs})
         if "skipped" in res:
             continue
+        rm = str(meta.get("resmap"))
         for e in events[1:res.get("steps", 0) + 1]:
-            ctx.case((target, meta.get("resmap"), json.dumps(_strip(e), sort_keys=True)))
+            ctx.case((target, rm, e["op"], e["p"], e.get("r"), str(e.get("arg")), e["res"], str(e["post"])))
     ctx.cov["replayed_transitions"] += steps
     ctx.cov["traces_validated_against_impl"] += len(jobs)
     ent = ctx.cov.setdefault("replay", {}).setdefault("%s@%s" % (name, target),
@@ -870,6 +883,7 @@ def edge_class(g, ei):
 
 def meta_for(name, k, seed, rnd):
     m = {"dump": name, "seed": seed * 100003 + k, "active": [name.split("-")[0]]}
+    name = "affinity" if name == "affinity-wide" else name
     if name.startswith("rlimit"):
         m["hi"] = 2
         others = [r for r in range(NRES) if r != NOFILE]
@@ -884,13 +898,33 @@ def meta_for(name, k, seed, rnd):
     return m
 
 
-def dump_jobs(ctx, name, g, per_class, maxlen=60):
-    segs = replay.tour_jobs(ctx, g, per_class=per_class, edge_class=edge_class if per_class else None, maxlen=maxlen)
+def dump_jobs(ctx, name, r, per_class, maxlen=60):
+    """Behaviours (boot + calls) covering every transition of the dumped graph
+    (or per_class of every class); cached next to the dump: they depend on the
+    specification and the seed only."""
+    import pickle
+    path = getattr(r, "cache_path", None)
+    tp = None
+    if path:
+        tp = path[:-len(".txt.gz")] + ".tour-%d-%s-%d.pkl" % (ctx.seed, per_class, maxlen)
+        if os.path.exists(tp):
+            with open(tp, "rb") as f:
+                return pickle.load(f)
+    g = graph.from_dump(r)
+    big = len(g.edges) > 40000
+    segs = replay.tour_jobs(ctx, g, per_class=per_class if big else None,
+                            edge_class=edge_class if (per_class and big) else None, maxlen=maxlen)
     rnd = random.Random(ctx.seed)
     jobs = []
     for k, (s0, events) in enumerate(segs):
         jobs.append((meta_for(name, k, ctx.seed, rnd), [dict(e) for e in events]))
-    return jobs
+    out = (len(g.edges), len(g.states), jobs)
+    if tp:
+        tmp = tp + ".tmp%d" % os.getpid()
+        with open(tmp, "wb") as f:
+            pickle.dump(out, f, protocol=pickle.HIGHEST_PROTOCOL)
+        os.replace(tmp, tp)
+    return out
 
 
 _HOST = {}
@@ -961,12 +995,14 @@ def live_subset(jobs, name, rnd, limit):
     return out
 
 
-def warm(ctx):
+def warm(ctx, tours=True, thorough=True):
     out = []
-    for name, c in DUMPS:
+    for name, c in DUMPS + (DUMPS_THOROUGH if thorough else []):
         r = tlc.dump_cached("Settings", c())
         ctx.tlc("dump-" + name, r)
-        graph.from_dump(r)
+        if tours:
+            for pc in ((None,) if name.endswith("-wide") else (None, 4)):
+                dump_jobs(ctx, name, r, pc)
         out.append((name, r))
     return out
 
@@ -1367,13 +1403,13 @@ def judge(ctx, stats, name, traces, np_, capped):
             if why == "result-class":
                 symptom = ("raised-" + s["raised"].split("(")[0]) if s["raised"] != "ok" else "did-not-raise"
             prev = tr["steps"][l - 2]["k"] if l > 1 else tr["k0"]
-            ctx.disagree("conf:%s:%s:%s" % (s["op"], ac, symptom),
+            stats.deferred.append(("conf:%s:%s:%s" % (s["op"], ac, symptom),
                          "TLC rejects step %d of a history recorded on the %s target (%s): request %s ended with "
                          "class %s (%s), value %r; kernel before: %s; kernel after: %s; eligible CPUs %s, denied %s, "
                          "CAP_SYS_RESOURCE %s"
                          % (l, tgt, why, json.dumps({k: s[k] for k in ("op", "p", "r", "arg")}), s["res"], s["raised"],
                             s["val"], json.dumps(_brief(prev, s)), json.dumps(_brief(s["k"], s)), tr["elig"], tr["denied"], tr["sysres"]),
-                         {"trace": dict(tr, steps=tr["steps"][:l])})
+                         {"trace": dict(tr, steps=tr["steps"][:l])}))
     ctx.cov["traces_validated_against_impl"] += len(traces)
     ctx.cov.setdefault("replay", {})[name] = {"histories": len(traces), "events": nev,
                                               "rejected_steps": sum(len(v) for v in rej.values())}
@@ -1510,6 +1546,8 @@ def replay_one(ctx, stats, path):
     elif "trace" in rep:
         tr = rep["trace"]
         judge(ctx, stats, "replay-trace", [tr], tr["np"], bool(tr.get("capped", tr["target"] == "sim")))
+        for sig, desc, rep2 in stats.deferred:
+            ctx.disagree(sig, desc, rep2)
     else:
         raise core.Machinery("this replay file holds a model-level trace; rerun the check to reproduce it")
     print("replayed %s: %d disagreement(s)" % (path, len(ctx.violations) + sum(ctx.known_hits.values())))
@@ -1584,10 +1622,23 @@ def _check(ctx):
     ]
     if ctx.replay_file:
         return replay_one(ctx, stats, ctx.replay_file)
+    t0 = time.time()
+    ph = ctx.cov["phase_s"] = {}
+
+    def mark(name):
+        ph[name] = round(time.time() - t0, 1)
     bg = Background()
     bg.start("model", model_checks, ctx)
     bg.start("mixed", mixed_jobs, ctx, 1500 if thorough else 250, 40)
     calibrate(ctx)
+    # (4) seeded random drivers first: TLC judges their histories in the background
+    nsim, nlive, nsteps = (4000, 800, 40) if thorough else (640, 160, 40)
+    ditems = [("rsim", (ctx.seed * 1000 + i, max(1, nsim // 16), nsteps)) for i in range(16)]
+    ditems += [("rlive", (ctx.seed * 1000 + 500 + i, max(1, nlive // 8), nsteps)) for i in range(8)]
+    dres = run_items(ditems, 1800)
+    tstats = Stats()
+    bg.start("judge", judge_all, ctx, tstats, dres[:16], dres[16:])
+    mark("histories-recorded")
     rnd = random.Random(ctx.seed)
     live_budget = {"nice": 60, "ionice": 120, "affinity": 160, "rlimit-inf": 48, "rlimit-fin": 32, "rlimit-cap": 24}
     items, owners = [], []          # work items and what to do with their results
@@ -1603,50 +1654,48 @@ def _check(ctx):
                 items.append(("live", b))
                 owners.append(("live", name, kind, b))
     # (2) transition tours of the dumped graphs, on both targets
-    for name, r in warm(ctx):
-        g = graph.from_dump(r)
-        big = len(g.edges) > 40000
-        jobs = dump_jobs(ctx, name, g, None if (thorough or not big) else 4)
+    live_budget["affinity-wide"] = None
+    for name, r in warm(ctx, tours=False, thorough=thorough):
+        nedges, nstates, jobs = dump_jobs(ctx, name, r, None if thorough else 4)
+        ctx.cov.setdefault("graphs", {})[name] = {"transitions": nedges, "states": nstates, "behaviours": len(jobs)}
         add("tour-" + name, "replayed (transition tour)", jobs, None if thorough else live_budget[name])
         ctx.sample({"kind": "tour-" + name, "events": [_strip(e) for e in jobs[len(jobs) // 2][1][:4]]}, limit=3)
-    # (4) seeded random drivers (their histories are judged by TLC below)
-    nsim, nlive, nsteps = (4000, 800, 40) if thorough else (640, 160, 40)
-    for i in range(16):
-        items.append(("rsim", (ctx.seed * 1000 + i, max(1, nsim // 16), nsteps)))
-        owners.append(("rsim",))
-        items.append(("rlive", (ctx.seed * 1000 + 500 + i, max(1, nlive // 16), nsteps)))
-        owners.append(("rlive",))
     # (3) random mixed behaviours from tlc -simulate
+    mark("tours-built")
     add("simulate-mixed", "simulated (mixed families)", bg.join("mixed"), None if thorough else 60)
+    mark("mixed-generated")
     results = run_items(items, 2400)
-    rsim, rlive = [], []
+    mark("work-items-done")
     for own, val in zip(owners, results):
         if own[0] == "sim":
             take_sim(ctx, stats, own[1], own[2], own[3], val)
-        elif own[0] == "live":
-            take_live(ctx, stats, own[1], own[2], own[3], val)
-        elif own[0] == "rsim":
-            rsim.append(val)
         else:
-            rlive.append(val)
+            take_live(ctx, stats, own[1], own[2], own[3], val)
     need(ctx, "the replay on the simulated kernel", stats.tags["sim"], REQ_SIM)
     host = ctx.cov.get("live_host") or {}
     need(ctx, "the replay on the live kernel", stats.tags["live"], REQ_LIVE + REQ_LIVE_DENIED
          + (REQ_LIVE_CPUSET if host.get("cpusets_with_holes") else []))
     if not host.get("cpusets_with_holes"):
         ctx.notes.append("live target: cpusets with holes could not be arranged on this host")
-    before = dict(stats.tags["sim"]), dict(stats.tags["live"])
-    judge_all(ctx, stats, rsim, rlive)
-    for tgt, b in zip(("sim", "live"), before):
-        delta = {k: v - b.get(k, 0) for k, v in stats.tags[tgt].items() if v - b.get(k, 0) > 0}
-        need(ctx, "the random driver (%s)" % tgt, delta, REQ_TRACE)
+    mark("results-recorded")
+    bg.join("judge")
+    for sig, desc, rep in sorted(tstats.deferred, key=lambda x: (x[0], len(x[2]["trace"]["steps"]), x[1])):
+        stats.seen(sig, rep["trace"]["target"] + "-recorded")
+        ctx.disagree(sig, desc, rep)
+    mark("histories-judged")
+    for tgt in ("sim", "live"):
+        need(ctx, "the random driver (%s)" % tgt, tstats.tags[tgt], REQ_TRACE)
+        for k, v in tstats.tags[tgt].items():
+            stats.tags[tgt][k] = stats.tags[tgt].get(k, 0) + v
     # (1) model-level results; the probe's counterexample on the real code (a note only:
     # the conformance above reports the defect by signature)
     probe = bg.join("model")
+    mark("model-checks-joined")
     if probe:
         res = run_items([("sim", [({"dump": "probe", "seed": 1, "active": ["affinity"]},
                                    [dict(e, alts=[], open=False) for e in probe])])], 300)[0][0]
         ctx.cov["regression_probe"]["real_code_follows_psutil700_model"] = not res.get("mismatches")
+    ctx.cov["disagreements_by_signature_and_target"] = stats.sigs
     ctx.cov["classes_exercised"] = {t: len(v) for t, v in stats.tags.items()}
     ctx.cov["steps_by_target"] = stats.steps
     ctx.cov["not_runnable_on_live"] = stats.skipped
